@@ -54,7 +54,7 @@ theorem sim_collect {m : MState σ} {g : GState σ} (h : Sim m g) :
 /-! ### one dispatch out of a non-empty batch -/
 
 theorem sim_step_batch (P : Prog σ) {m : MState σ} {g : GState σ} {s : GSig} {br : List GSig}
-    (h : Sim m g) (hb : g.batch = s :: br) (hc : calmStep P m = true) :
+    (h : Sim m g) (hb : g.batch = s :: br) (hc : sibCalmStep P m = true) :
     ∃ m' g', mstep P m = some m' ∧ gstep P g = some g' ∧ Sim m' g' ∧ g'.batch = br ∧
       m'.done = m.done ++ [s] ∧ m'.st = (P m.st s).1 := by
   obtain ⟨t, ht⟩ := h.batch_prefix
@@ -72,14 +72,14 @@ theorem sim_step_batch (P : Prog σ) {m : MState σ} {g : GState σ} {s : GSig} 
   · -- what the handlers enqueued is not more urgent than the rest of the batch
     have hnew : br ≠ [] → ∀ e ∈ (P m.st s).2, ∀ b ∈ br, b.prio ≤ e.prio := by
       intro hne e he b hbm
-      unfold calmStep at hc
+      unfold sibCalmStep at hc
       rw [← ht] at hc
-      simp only [Bool.or_eq_true, List.isEmpty_iff, List.append_eq_nil_iff, List.all_eq_true,
-        decide_eq_true_eq] at hc
+      simp only [Bool.or_eq_true, List.all_eq_true, decide_eq_true_eq] at hc
+      have h2 := hurg b (List.mem_cons_of_mem _ hbm) s (List.mem_cons_self ..)
       rcases hc with hc | hc
-      · exact absurd hc.1 hne
+      · have h3 := hurg s (List.mem_cons_self ..) b (List.mem_cons_of_mem _ (List.mem_append_left _ hbm))
+        exact absurd (by omega) (hc b (List.mem_append_left _ hbm))
       · have h1 := hc e he
-        have h2 := hurg b (List.mem_cons_of_mem _ hbm) s (List.mem_cons_self ..)
         omega
     constructor
     · exact h.st ▸ rfl
@@ -102,7 +102,7 @@ theorem sim_step_batch (P : Prog σ) {m : MState σ} {g : GState σ} {s : GSig} 
 
 /-- related states: either both loops have nothing to dispatch, or both dispatch the same signal and stay
 related -/
-theorem sim_step (P : Prog σ) {m : MState σ} {g : GState σ} (h : Sim m g) (hc : calmStep P m = true) :
+theorem sim_step (P : Prog σ) {m : MState σ} {g : GState σ} (h : Sim m g) (hc : sibCalmStep P m = true) :
     (mstep P m = none ∧ gstep P g = none) ∨
     ∃ m' g', mstep P m = some m' ∧ gstep P g = some g' ∧ Sim m' g' := by
   cases hb : g.batch with
@@ -130,12 +130,38 @@ theorem sim_step (P : Prog σ) {m : MState σ} {g : GState σ} (h : Sim m g) (hc
 
 /-! ### runs -/
 
+theorem calmStep_imp_sibCalmStep (P : Prog σ) {m : MState σ} (h : calmStep P m = true) :
+    sibCalmStep P m = true := by
+  unfold calmStep at h
+  unfold sibCalmStep
+  split
+  · rfl
+  · next s rest hq =>
+    simp only [hq, Bool.or_eq_true, List.isEmpty_iff] at h
+    rcases h with h | h
+    · simp [h]
+    · simp only [h, Bool.or_true]
+
+theorem calmRun_imp_sibCalmRun (P : Prog σ) (n : Nat) {m : MState σ} (h : calmRun P n m = true) :
+    sibCalmRun P n m = true := by
+  induction n generalizing m with
+  | zero => rfl
+  | succ n ih =>
+    simp only [calmRun, Bool.and_eq_true] at h
+    simp only [sibCalmRun, Bool.and_eq_true, calmStep_imp_sibCalmStep P h.1, true_and]
+    cases hs : mstep P m with
+    | none => rfl
+    | some m' =>
+      have h2 := h.2
+      simp only [hs] at h2
+      exact ih h2
+
 theorem sim_run (P : Prog σ) (n : Nat) {m : MState σ} {g : GState σ} (h : Sim m g)
-    (hc : calmRun P n m = true) : Sim (mrun P n m) (grun P n g) := by
+    (hc : sibCalmRun P n m = true) : Sim (mrun P n m) (grun P n g) := by
   induction n generalizing m g with
   | zero => exact h
   | succ n ih =>
-    simp only [calmRun, Bool.and_eq_true] at hc
+    simp only [sibCalmRun, Bool.and_eq_true] at hc
     rcases sim_step P h hc.1 with ⟨h1, h2⟩ | ⟨m', g', h1, h2, h3⟩
     · simp only [mrun, grun, h1, h2]
       exact h
@@ -222,7 +248,7 @@ theorem grun_add (P : Prog σ) (k n : Nat) (g : GState σ) : grun P (k + n) g = 
 
 /-- while a batch lasts both loops dispatch exactly the batch, whatever the handlers enqueue meanwhile -/
 theorem sim_batch_first (P : Prog σ) (k : Nat) {m : MState σ} {g : GState σ} (h : Sim m g)
-    (hk : k ≤ g.batch.length) (hc : calmRun P k m = true) :
+    (hk : k ≤ g.batch.length) (hc : sibCalmRun P k m = true) :
     (mrun P k m).done = m.done ++ g.batch.take k ∧ (grun P k g).done = g.done ++ g.batch.take k ∧
       (grun P k g).batch = g.batch.drop k := by
   induction k generalizing m g with
@@ -231,7 +257,7 @@ theorem sim_batch_first (P : Prog σ) (k : Nat) {m : MState σ} {g : GState σ} 
     cases hb : g.batch with
     | nil => rw [hb] at hk; simp at hk
     | cons s br =>
-      simp only [calmRun, Bool.and_eq_true] at hc
+      simp only [sibCalmRun, Bool.and_eq_true] at hc
       obtain ⟨m', g', h1, h2, h3, h4, h5, _⟩ := sim_step_batch P h hb hc.1
       have hc2 := hc.2
       simp only [h1] at hc2
